@@ -54,3 +54,21 @@ Definition ex_pmh : list N := (pm_magic ++ repeat 5 89 ++ [2; 1; 1] ++ repeat 3 
 Definition ex_pm : list wop := [WSetPos 200; WAppend 200 [1; 2; 3]; WSetPos 127; WAppend 127 [4; 5]; WStart ex_pmh]%N.
 Example C12_pm_shape : pm_wfb ex_pm = true /\ pm_view (run_ops ex_pm) <> None /\ pm_view (crash_state ex_pm 4 100) <> None /\ pm_view (crash_state ex_pm 4 98) = None.
 Proof. repeat split; vm_compute; discriminate. Qed.
+
+(* ---- the two hand-written models of the header parsers agree: the acceptance predicates the crash
+   theorems are about (Model/Crash.v) accept exactly what the byte-level parsers of C01 / C16 accept
+   (Model/VTBytes.v, Model/PMHeader.v), and read the same range fields ---- *)
+From VT Require Import Base.Outcome Model.VTBytes Model.PMHeader Proofs.HeaderLink.
+Theorem C12_versatiles_header_models_agree : forall h,
+  vt_parse_header h =
+    match hdr_from_blob h with
+    | Ok d => Some (mkVH (h_moff d) (h_mlen d) (h_boff d) (h_blen d))
+    | _ => None
+    end.
+Proof. exact header_models_agree. Qed.
+Print Assumptions C12_versatiles_header_models_agree.
+Theorem C12_pmtiles_header_models_agree : forall f,
+  (exists v, pm_view f = Some v) <->
+  (exists d, pmh_deserialize (firstn 127 f) = Ok d /\ (1 <= p_icomp d <= 3)%N /\ (1 <= p_tcomp d <= 3)%N).
+Proof. exact pm_header_models_agree. Qed.
+Print Assumptions C12_pmtiles_header_models_agree.
